@@ -392,7 +392,10 @@ impl Property for C03 {
         }
     }
     fn rule_text(&self) -> &'static str {
-        "cases: generated confluent programs (await trees, single-sender pipelines, request/reply, chains, late and double awaits, sleep-only timeouts, compute loops), each run once under the reference configuration (1 worker, quantum 1000, fair, everything visible) and under V sampled (worker count 1-6, quantum, scheduler kind, message visibility, JSON transport, drive mode, clock) variants; a run is non-trivial if it used >=2 workers, handled >=1 message while an older message to another consumer was still queued (or had an injected fault) and finished conclusively; distinct = distinct (scenario shape hash, interleaving hash) pairs, counted in a set"
+        "cases: generated confluent programs (await trees, single-sender pipelines, request/reply, chains, late and double awaits, sleep-only timeouts, compute loops), each run once under the reference configuration (1 worker, quantum 1000, fair, everything visible) and under V sampled (worker count 1-6, quantum, scheduler kind, message visibility, JSON transport, drive mode, clock, observer requests - statuses, infos, results of running processes - issued at moments the scheduler picks) variants; a result request issued while a process runs must be answered with that process's result; a run is non-trivial if it used >=2 workers, handled >=1 message while an older message to another consumer was still queued (or had an injected fault) and finished conclusively; distinct = distinct (scenario shape hash, interleaving hash) pairs, counted in a set"
+    }
+    fn required_probes(&self) -> Vec<&'static str> {
+        vec!["observer_requests_mid_run", "result_requests_answered_mid_run"]
     }
     fn generate(&self, rng: &mut Rng, _tier: Tier) -> Scenario {
         let mut budget = 6i32;
